@@ -171,6 +171,15 @@ def r2_validation(repo, rep):
                 norm(r.ast)[:120], 'malformed eligibility table is rejected with %s, not ValueError' % exn, f.loc(r.ast))
     if kind:
       classes.setdefault(kind, []).append((n, lab))
+  # known-bad shapes of the 0/1 test: a numeric range test (min/max, < 0, > 1) admits fractions and NaN
+  if 'zero-one' not in classes:
+    for n, lab, raises in guards:
+      txt = norm(rd.expand(n, n.expr, keep=(dfp,))[0])
+      if (('.min()' in txt and '.max()' in txt) or ('< 0' in txt and '> 1' in txt) or '.between(0, 1' in txt) and ('control' in txt or 'value_columns' in txt):
+        rep.violation('R2/validation', f.qualname, txt[:140],
+                      'the entries are validated with the numeric range test `%s`: values strictly between 0 and 1 (and NaN) pass, so tables with entries outside {0, 1} are accepted' % txt[:100],
+                      f.loc(n.expr))
+        classes['zero-one'] = [(n, lab)]
   missing = [name for name, _ in GUARDS if name not in classes]
   n_dom = sum(1 for n, lab, r in guards if n in dom)
   for name, _ in GUARDS:
